@@ -7,7 +7,11 @@
 EXTENDS GcStress, Cases, TLCExt
 CONSTANTS N1, N2, Fuel
 
-Kinds == <<"array", "string", "tuple", "struct", "closure", "nested", "option", "growing", "worklist", "clearlist">>
+Kinds == <<"array", "string", "tuple", "struct", "closure", "nested", "option", "growing", "worklist", "clearlist",
+           \* an event loop: the `while` is the LAST statement of the program and its body discards values
+           \* (`work.pop()`, a concatenation, a fresh array as expression statements)
+           "tailpop", "tailstr", "tailarr">>
+IsTail(kind) == kind \in {"tailpop", "tailstr", "tailarr"}
 Fresh(kind) ==
   CASE kind = "array"  -> Arr(<<V("i"), V("i"), V("i")>>)
     [] kind = "string" -> Bin("..", S("item number "), V("i"))
@@ -24,7 +28,22 @@ Refill(kind) == <<Var("j", I(0)),
                 (IF kind = "worklist"
                  THEN <<While(Bin(">", MCall(V("work"), "len", <<>>), I(0)), <<Let("item", MCall(V("work"), "pop", <<>>))>>)>>
                  ELSE <<ExprS(MCall(V("work"), "clear", <<>>))>>)
-Churn(kind, n) == File1(Types, <<>>, <<
+ChurnTail(kind, n) == File1(Types, <<>>, <<
+   Let("longlived", Arr(<<I(1), I(2), I(3)>>)),
+   Let("work", Arr(<<Tup(<<I(0), I(0)>>)>>)),
+   Var("i", I(0)),
+   Var("acc", I(0)),
+   PrintS(V("longlived")),
+   While(Bin("<", V("i"), I(n)), <<
+      Assign(V("i"), "+=", I(1)),
+      ExprS(MCall(V("work"), "push", <<Tup(<<V("i"), V("i")>>)>>)),
+      ExprS(CASE kind = "tailpop" -> MCall(V("work"), "pop", <<>>)
+              [] kind = "tailstr" -> Bin("..", S("item number "), V("i"))
+              [] kind = "tailarr" -> Arr(<<V("i"), V("i"), V("i")>>)) >>
+      \o (IF kind = "tailpop" THEN <<>> ELSE <<Let("dropped", MCall(V("work"), "pop", <<>>))>>)
+      \o <<Assign(V("acc"), "=", Bin("%", Bin("+", V("acc"), V("i")), I(1000))),
+           If(Bin("==", V("i"), I(n)), <<PrintS(V("acc"))>>, <<>>)>>) >>)
+Churn(kind, n) == IF IsTail(kind) THEN ChurnTail(kind, n) ELSE File1(Types, <<>>, <<
    Let("longlived", Arr(<<I(1), I(2), I(3)>>)),
    Let("work", Arr(<<Tup(<<I(0), I(0)>>)>>)),
    Var("i", I(0)),
